@@ -30,7 +30,7 @@ Lemma step_rep r op : request_ok r -> op_ok op ->
   pp_step (rep r) op = rep (request_step r op) /\ request_ok (request_step r op).
 Proof.
   intros Hr Hop.
-  destruct op as [p | p | a | a]; destruct r as [[q b] |]; cbn [pp_step request_step op_ok request_ok] in *.
+  destruct op as [p | p | a | a | p]; destruct r as [[q b] |]; cbn [pp_step request_step op_ok request_ok] in *.
   - split; [|exact Hop]. cbn [rep pp_with_period]. now apply new_rep.
   - split; [|exact Hop]. cbn [rep pp_with_period]. now apply new_rep.
   - split; [|exact Hop]. now apply assign_rep.
@@ -39,7 +39,24 @@ Proof.
   - split; [reflexivity | exact I].
   - split; [|exact Hr]. cbn [rep pp_with_apodization]. rewrite sign_mul_rep by exact Hr. now apply new_rep.
   - split; [reflexivity | exact I].
+  - split; [|exact Hop]. cbn [rep pp_try_as_optimum pp_try_new_optimum]. now apply new_rep.
+  - split; [|exact Hop]. cbn [rep pp_try_as_optimum pp_try_new_optimum]. now apply new_rep.
 Qed.
+
+(* try_as_optimum: an error of the optimiser is passed on (no new state); on success the period is the optimiser's, the
+   apodization is the current one (none for an unpoled description) *)
+Lemma as_optimum_spec s :
+  pp_try_as_optimum None s = None /\
+  forall p, p <> 0 -> pp_try_as_optimum (Some p) s = Some (rep (Some (p, pp_apodization s))).
+Proof.
+  split.
+  - destruct s; reflexivity.
+  - intros p Hp. destruct s as [| m sg a]; cbn [pp_try_as_optimum pp_try_new_optimum pp_apodization]; now rewrite new_rep.
+Qed.
+
+(* the wrapper PeriodicPoling::integration_constant is the window of the stored apodization, at the same z and L *)
+Lemma wrapper_on m sg a z L : pp_integration_constant (On m sg a) z L = integration_constant a z L.
+Proof. reflexivity. Qed.
 
 Theorem run_rep ops : forall r, request_ok r -> Forall op_ok ops ->
   pp_run (rep r) ops = rep (request_run r ops) /\ request_ok (request_run r ops).
